@@ -7,3 +7,11 @@ open Nima.C07
 #print axioms rm_refused
 #print axioms bad_value_refused
 #print axioms erroneous_text
+#print axioms cli_test_fails
+#print axioms cli_set_refused
+#print axioms cli_rm_refused
+#print axioms cli_bad_value_refused
+#print axioms cli_erroneous_text
+#print axioms tie_cli_test
+#print axioms tie_cli_set
+#print axioms tie_cli_rm
